@@ -261,6 +261,18 @@ def check_one(ck, log, whole_raw, case, real, tag, stats):
                    + (" (no progress: the same batch would be fetched again)" if resp and real["nfo"] is not None and real["nfo"] <= f else ""))
     if not real.get("trace_ok", True):
         bad.append("next_fetch_offset is not record.offset + 1 right after a delivered record")
+    # the same response consumed through the FetchResult API (getone() / getmany() path) must deliver the same
+    # records and leave the consumer's position at the end of the response - also when nothing was deliverable
+    for mode, v in sorted((real.get("via") or {}).items()):
+        how = "getone()" if mode == "0" else f"getall(max_records={mode})"
+        if real["exc"] is None and v["exc"] is not None:
+            bad.append(f"via {how}: raised {v['exc']}")
+        elif real["exc"] is None:
+            if v["out"] != real["out"]:
+                bad.append(f"via {how}: delivered offsets {[r[0] for r in v['out']]} instead of {[r[0] for r in real['out']]}")
+            if v["pos"] != real["nfo"]:
+                bad.append(f"via {how}: the position is left at {v['pos']}, the response ends at {real['nfo']}"
+                           + (" (no progress: the same offset would be fetched again)" if v["pos"] == f and real["nfo"] != f else ""))
     if resp:
         stats["resp_batches"] += len(resp)
         bs = [log.batches[i] for i in resp]
